@@ -1,14 +1,14 @@
-\* random deep plans (tlc -simulate): cfg + 5 steps on one writer
+\* random deep plans (tlc -simulate): cfg + 4 steps on one writer
 SPECIFICATION Spec
 CHECK_DEADLOCK FALSE
 
 INVARIANTS PlanOut
 CONSTANTS
-  MaxOps = 6
+  MaxOps = 5
   Kinds = {"insert", "delete", "dropcoll", "droppart", "tick", "import"}
-  MaxLen = 4
+  MaxLen = 2
   ParKinds = {"insert", "delete", "dropcoll", "droppart", "tick", "import"}
-  ParMaxLen = 2
+  ParMaxLen = 1
   WithCall = TRUE
   WithPar = TRUE
-  Salts = {1, 2, 3}
+  Salts = {1}
